@@ -353,11 +353,11 @@ pub mod gains {
     pub fn adaptor_and_mid_stream_change() {
         let xs: [i16; 3] = kani::any();
         let mut pulls = 0usize;
-        let src = dasp_signal::gen_mut(|| {
-            let v = xs[if pulls < 3 { pulls } else { 2 }];
-            pulls += 1;
-            v
-        });
+        // the source keeps yielding frames and reports itself exhausted from an arbitrary point on (an
+        // endless source, a finite one read past its end, or an unequal-length mix)
+        let exhausted_from: usize = kani::any();
+        kani::assume(exhausted_from <= 3);
+        let src = ReportingSrc { vals: xs, pulls: &mut pulls, exhausted_from };
         let mk = || -> Detector<i16, Peak<PositiveHalfWave>> { Detector::peak_positive_half_wave(0.5, 4.0) };
         let mut env = src.detect_envelope(mk());
         let mut reference = mk();
@@ -369,7 +369,9 @@ pub mod gains {
         reference.set_attack_frames(4.0);
         let o1 = env.next();
         assert!(o1 == reference.next(xs[1]), "new gains apply from the next frame on");
-        assert!(!env.is_exhausted());
+        assert!(env.is_exhausted() == (2 >= exhausted_from), "exhaustion is the source's");
+        kani::cover!(exhausted_from == 0, "source reports exhausted from the start");
+        kani::cover!(exhausted_from == 3, "source not exhausted during the run");
         let (_, det) = env.into_parts();
         assert!(det.verif_state().2 == o1);
         assert!(pulls == 2, "one source frame per output frame");
@@ -391,6 +393,22 @@ pub mod gains {
         let out = det.next(x);
         assert!(out == rms.next(x), "detected value is the windowed RMS");
         kani::cover!(true, "end");
+    }
+}
+pub struct ReportingSrc<'a> {
+    pub vals: [i16; 3],
+    pub pulls: &'a mut usize,
+    pub exhausted_from: usize,
+}
+impl<'a> dasp_signal::Signal for ReportingSrc<'a> {
+    type Frame = i16;
+    fn next(&mut self) -> i16 {
+        let v = self.vals[if *self.pulls < 3 { *self.pulls } else { 2 }];
+        *self.pulls += 1;
+        v
+    }
+    fn is_exhausted(&self) -> bool {
+        *self.pulls >= self.exhausted_from
     }
 }
 fn sqrt_marker(x: f32) -> f32 {
